@@ -212,6 +212,12 @@ FailureAllowed(e, code2, err) ==
         /\ err.label \in DOMAIN e.d8 \cup DOMAIN e.d16
      \/ /\ err.class = "range"
         /\ \E r \in RefSet(e.d8) : Defined(e, r) /\ ~InRange(e, r) /\ err.from = r[2] + 1 /\ err.to = e.labels[r[1]]
+     \/ /\ err.class = "other"       \* wording not recognised by the harness: the message must still mention a bad reference
+        /\ LET words == { err.words[i] : i \in 1..Len(err.words) }
+               nums == { err.nums[i] : i \in 1..Len(err.nums) }
+           IN \/ \E r \in RefSet(e.d8) \cup RefSet(e.d16) : ~Defined(e, r) /\ r[1] \in words
+              \/ \E r \in RefSet(e.d8) : Defined(e, r) /\ ~InRange(e, r) /\
+                    (r[1] \in words \/ (r[2] + 1) \in nums \/ r[2] \in nums \/ (r[2] - 1) \in nums \/ e.labels[r[1]] \in nums)
 
 -----------------------------------------------------------------------------
 (* Clone / Append (C16) *)
